@@ -13,6 +13,7 @@ import Sourcer.Proofs.ModulesProofs
 import Sourcer.Syntax
 import Sourcer.Proofs.EnvProofs
 import Sourcer.Proofs.OpShape
+import Sourcer.Proofs.EnvSubst
 /-
   Property theorems (statements only; proofs are one-liners over Sourcer/Proofs/*).
   Every theorem is followed by an `example` showing its hypotheses are met by a concrete,
@@ -1106,5 +1107,48 @@ example : wsProgram C06Example.prog = true ∧
     xpeg C06Example.prog [97, 98, 97] 12 (.ref 0) [] 0 = some (.ok (.list [.str [98], .none]) 2) ∧
     (xgen C06Example.prog [97, 98, 97] 12 (.ref 0) [] 0).map (·.1) = some (.ok (.list [.str [98], .none]) 2) := by
   refine ⟨by decide, by rfl, by rfl⟩
+
+open X in
+/-- **C06, the textual reading (closed arguments).**  If a call `T(args)` has an outcome, then the
+    body of `T` with every parameter replaced by the corresponding argument expression (`subst`:
+    binders of the same name end the replacement) has the same outcome, in any environment and
+    with any larger amount of fuel.  Arguments here are closed parsing expressions or string
+    literals; for arguments that mention call-site names the semantic statement is
+    `C06_call_is_body_with_arguments`. -/
+theorem C06_call_means_its_expansion_closed_arguments (P : XProgram) (inp : List Nat) (hP : wsProgram P = true)
+    (t : Nat) (T : Template) (args : List (Option Name × XExpr)) (bound : List (Name × XExpr))
+    (hT : P.templates[t]? = some T) (hb : bindArgs T.params args = some bound)
+    (hclosed : closedArgs bound = true) (hpy : pyAvoids bound T.body = true)
+    (n n' : Nat) (hn : n ≤ n') (ρ ρ₂ : SEnv) (p : Nat) (r : Res)
+    (h : xpeg P inp n (.call t args) ρ p = some r) : xpeg P inp n' (subst bound T.body) ρ₂ p = some r :=
+  call_means_expansion P inp (wsProgram_iff P hP) t T args bound hT hb hclosed hpy n n' hn ρ ρ₂ p r h
+
+open X in
+/-- the meaning of a rule does not depend on the amount of fuel once it is defined -/
+theorem C06_more_fuel_same_outcome (P : XProgram) (inp : List Nat) (hP : wsProgram P = true) (n n' : Nat)
+    (hn : n ≤ n') (k p : Nat) (r : Res) (h : xpeg P inp n (.ref k) [] p = some r) :
+    xpeg P inp n' (.ref k) [] p = some r :=
+  xpeg_rule_fuel_mono P inp (wsProgram_iff P hP) n n' hn k p r h
+
+namespace C06Example
+open X
+/-- `start = T0(/[a-c]/ "b")` (a sequence as argument), `T0(pa) = [pa, pa?]` -/
+def closedProg : XProgram :=
+  { rules := [.call 0 [(none, .seq [.cc 97 99, .lit [98]])]],
+    templates := [{ params := ["pa"], body := .seq [.pvar "pa", .opt (.pvar "pa")] }],
+    pyf := fun _ _ => .none, app := fun _ v => v, truthy := fun _ => true }
+end C06Example
+
+-- non-vacuity: the hypotheses hold, the call is defined, and the expansion `[[/[a-c]/,"b"], [/[a-c]/,"b"]?]` agrees
+open X in
+example : wsProgram C06Example.closedProg = true ∧
+    closedArgs [("pa", XExpr.seq [.cc 97 99, .lit [98]])] = true ∧
+    pyAvoids [("pa", XExpr.seq [.cc 97 99, .lit [98]])] (.seq [.pvar "pa", .opt (.pvar "pa")]) = true ∧
+    xpeg C06Example.closedProg [97, 98, 99, 98] 10 (.call 0 [(none, .seq [.cc 97 99, .lit [98]])]) [] 0 =
+      some (.ok (.list [.list [.str [97], .str [98]], .list [.str [99], .str [98]]]) 4) ∧
+    xpeg C06Example.closedProg [97, 98, 99, 98] 10
+      (subst [("pa", XExpr.seq [.cc 97 99, .lit [98]])] (.seq [.pvar "pa", .opt (.pvar "pa")])) [] 0 =
+      some (.ok (.list [.list [.str [97], .str [98]], .list [.str [99], .str [98]]]) 4) := by
+  refine ⟨by decide, by decide, by decide, by rfl, by rfl⟩
 
 end Sourcer
